@@ -24,6 +24,15 @@ def run(R):
             out = R.path("ct", "small-%s.ndjson" % variant)
             R.run([exe, str(R.seed), "small", "0", out], ok_codes=(0, 70))
             files += R.split_file(out, 8, "small-" + variant)
+    if thorough:          # operands of 2^32 + 300 bytes (sparse, read-only): about 90 s per build
+        from concurrent.futures import ThreadPoolExecutor
+        hj = []
+        for variant in ("native", "portable"):
+            out = R.path("ct", "huge-%s.ndjson" % variant)
+            hj.append(([R.cc("ct_driver", ["ct_driver.c"], variant), str(R.seed), "huge", "0", out], out))
+        with ThreadPoolExecutor(max_workers=2) as ex:
+            list(ex.map(lambda j: R.run(j[0], ok_codes=(0, 70), timeout=3000), hj))
+        files += [j[1] for j in hj]
     seen = set()
     n = 0
     for f in files:
